@@ -31,6 +31,8 @@
 (*  tls    ok                       server side of a TLS handshake ended   *)
 (*  setdl  armed                    SetDeadline on the transport           *)
 (*  stall                           the server stops answering from here   *)
+(*  wfail                           the transport failed under a client    *)
+(*                                  write (scripted connection reset)      *)
 (*  log    leak redacted verbatim   one debug-log record                   *)
 (*  cclose                          client closed the transport            *)
 (*  ret    op err elapsed top msgs  API call returned                      *)
@@ -294,6 +296,7 @@ Observe(o, e) ==
                                     !.ss = IF e.ok THEN "idle" ELSE @,
                                     !.viol = @ \cup Flag("C07_CertValidated", e.ok => o.cfg.hs = "ok")]
     [] e.ev = "setdl"  -> [o EXCEPT !.armed = e.armed]
+    [] e.ev = "wfail"  -> [o EXCEPT !.srvGone = TRUE]      \* the transport broke under a client write
     [] e.ev = "stall"  -> [o EXCEPT !.stalled = TRUE, !.srvGone = TRUE, !.pend = NoCmd]
     [] e.ev = "log"    -> [o EXCEPT !.viol = @
                               \cup Flag("C16_NoSecretInLog", o.cfg.logauth \/ ~e.leak)
